@@ -519,6 +519,14 @@ def check_caches(run, modules, rule, functions=None, prog=None):
                                  "%s declares '%s' as a C float: every value of the package is a double, so a quantity held in this variable is "
                                  "rounded to 24 bits and overflows to infinity above 3.4e38 (sums of squares of photon rates do), which changes "
                                  "results and convergence tests for inputs the double-precision code handles" % (name, nm_))
+            from .rules._purity import misaligned_key_value_pairs
+            for z_, d_ in misaligned_key_value_pairs(fn):
+                nstores += 1
+                run.subject(rule)
+                run.fail(rule, '%s|%s|misaligned-pairs:%s' % (mi.name, name, d_), mi.relpath, z_.lineno,
+                         "%s pairs the keys of %s in sorted order with %s.values() in the mapping's own order (%s): where the stored order is not the "
+                         "sorted one (string keys '1', '2', '10'; a file written in another order) a key is returned with another key's data"
+                         % (name, d_, d_, norm(z_)[:60]))
             from .rules._purity import stale_loop_variable, ascending_index_deletion
             for d_, cont_, idx_ in ascending_index_deletion(fn):
                 nstores += 1
